@@ -206,6 +206,7 @@ def independent_lex(text):
 # ----------------------------------------------------------------------------- whole files
 
 SFAC_ELEMENTS = ['C', 'H', 'O', 'N', 'F', 'Cl', 'S']
+EXPLICIT_COEFFICIENTS = '13.338 3.5828 7.1676 0.247 5.6158 11.3966 1.6735 64.8126 1.191 0.32 1.265 5.0 1.28 63.546'.split()
 INT_KW = {'AFIX', 'MPLA', 'L.S.', 'CGLS', 'LIST', 'MORE', 'MERG', 'PLAN', 'FMAP', 'HKLF', 'WPDB', 'TWST', 'LATT'}
 
 
@@ -278,7 +279,7 @@ def gen_file(rng, natoms=None, ninstr=None, with_qpeaks=True, restraints=True, k
         d.update(kw)
         lines.append(d)
         return d
-    add(['TITL', 'generated', 'file', 'in', 'P2(1)/c'], 'titl')
+    add(rng.choice([['TITL', 'generated', 'file', 'in', 'P2(1)/c'], ['TITL', 'x', '=', '3', 'compound', 'in', 'P2(1)/c'], ['TITL', 'mo_abc_0m', 'in', 'P-1']]), 'titl')
     cell = [0.71073, round(rng.uniform(7, 15), 3), round(rng.uniform(7, 15), 3), round(rng.uniform(7, 15), 3), 90, round(rng.uniform(91, 110), 2), 90]
     add(['CELL'] + [fmt_num(x) for x in cell], 'cell', nums=cell)
     zerr = [rng.choice([2, 4, 8]), 0.001, 0.002, 0.003, 0, 0.01, 0]
@@ -287,11 +288,17 @@ def gen_file(rng, natoms=None, ninstr=None, with_qpeaks=True, restraints=True, k
     add(['LATT', str(latt)], 'latt', nums=[latt])
     add(['SYMM', '-X,', '1/2+Y,', '1/2-Z'], 'symm')
     nel = rng.randint(3, len(SFAC_ELEMENTS))
-    els = SFAC_ELEMENTS[:nel]
-    if rng.random() < 0.4:
+    els = SFAC_ELEMENTS[:nel] if rng.random() < 0.5 else rng.sample(SFAC_ELEMENTS, nel)      # any order of the scattering factors
+    r_sf = rng.random()
+    if r_sf < 0.35:
         k = rng.randint(1, nel - 1)
         add(['SFAC'] + els[:k], 'sfac', elements=els[:k])
         add(['SFAC'] + els[k:], 'sfac', elements=els[k:])
+    elif r_sf < 0.5:
+        # the last element with explicit scattering factors, its symbol in any case
+        add(['SFAC'] + els[:-1], 'sfac', elements=els[:-1])
+        sym = rng.choice([els[-1], els[-1].upper(), els[-1].lower()])
+        add(['SFAC', sym] + EXPLICIT_COEFFICIENTS, 'sfacx', elements=[els[-1]])
     else:
         add(['SFAC'] + els, 'sfac', elements=els)
     unit = [rng.choice([4, 8, 12, 16, 24, 36, 40]) for _ in els]
@@ -316,6 +323,10 @@ def gen_file(rng, natoms=None, ninstr=None, with_qpeaks=True, restraints=True, k
             continue
         toks, nums, ws = instr_tokens(rng, kw, names)
         add(toks, 'instr', kw=kw, nums=nums, words=ws)
+    REMS = [['REM', 'target', 'distance', 'd(C-C)', '=', '1.54'], ['REM', 'a', 'plain', 'remark'], ['REM', 'R1', '=', '0.0400', 'for', '1234', 'Fo', '>', '4sig(Fo)'],
+            ['REM'], ['REM', 'SADI', 'C1', 'C2', '=']]
+    for _ in range(rng.choice([0, 0, 1, 2])):
+        add(rng.choice(REMS), 'rem')
     nfv = rng.randint(3, 12)     # the occupation codes used below refer to free variables 2 and 3
     fv = [1.0] + [round(rng.uniform(0.1, 0.9), 4) for _ in range(nfv - 1)]
     if nfv > 3 and rng.random() < 0.5:
@@ -333,7 +344,7 @@ def gen_file(rng, natoms=None, ninstr=None, with_qpeaks=True, restraints=True, k
         if resi and r < 0.15:
             num = rng.randint(1, 5)
             used = [l['cls'] for l in lines if l['kind'] == 'resi' and l['cls']]
-            cls = rng.choice(used) if used and rng.random() < 0.5 else rng.choice(['', 'TOL', 'CCF3', 'thf', 'B12'])
+            cls = rng.choice(used) if used and rng.random() < 0.5 else rng.choice(['', 'TOL', 'CCF3', 'thf', 'B12', '3HB'])
             cls = rng.choice([cls, cls, cls.lower(), cls.upper()])     # classes are not case-sensitive
             toks = ['RESI'] + ([cls] if cls else []) + [str(num)]
             if cls and rng.random() < 0.4:
@@ -349,6 +360,8 @@ def gen_file(rng, natoms=None, ninstr=None, with_qpeaks=True, restraints=True, k
             mn = rng.choice([43, 137, 23, 66, 0])
             add(['AFIX', str(mn)], 'afix', mn=mn)
             ctx['afix'] = mn
+        elif r > 0.97:
+            add(rng.choice(REMS), 'rem')
         elif restraints and r < 0.6:
             kw = rng.choice(rkw)
             suffix = rng.choice([None, None, None, str(ctx['resi'][0]) if ctx['resi'][0] else None, ctx['resi'][1] if ctx['resi'][1] else None])
@@ -403,8 +416,10 @@ def gen_file(rng, natoms=None, ninstr=None, with_qpeaks=True, restraints=True, k
 
 def gen_layout(rng, tokens, kind, style):
     """layout for one logical line; style: 'plain' | 'wild'"""
-    if style == 'plain' or kind in ('titl',):
+    if style == 'plain':
         return {}
+    if kind in ('titl', 'rem'):       # free text: never wrapped, no comment; the keyword may be written in any case
+        return {'lower': True} if rng.random() < 0.4 else {}
     lay = {}
     n = len(tokens)
     if n > 2 and rng.random() < 0.5 and kind not in ('symm',):
@@ -429,6 +444,8 @@ def render_file(gf, rng, style='plain', layouts=None, starts=None):
         toks = l['tokens']
         if l['kind'] == 'symm':
             lay = dict(lay); lay.pop('wraps', None)
+        if l['kind'] == 'sfacx' and not lay.get('wraps'):
+            lay = dict(lay); lay['wraps'] = {9}; lay.setdefault('indent', 3)      # 16 tokens do not fit on one line
         phys = render_logical(toks, lay, rng)
         if starts is not None:
             starts.append(len(out) + len(lay.get('before', [])))
